@@ -257,4 +257,47 @@ example : capNegativeImpact 64 (10 ^ 9) cPerp (-(500 * 10 ^ 9)) false (-(15 * 10
 diff; 87.5·10⁹ of the 100·10⁹ tokens deposited come back. -/
 example : rtOutcome = some (25 * 10 ^ 8, -(15 * 10 ^ 9), 0, 875 * 10 ^ 8) := by rfl
 
+/-! #### audit additions: witnesses for the remaining hypotheses -/
+/-- `open_close_tokens_against_trader` with a real spread 99 < 101 (instantiating the theorem). -/
+example : 1000 / 101 * 99 ≤ 1000 ∧ 1000 ≤ ceilDiv 1000 99 * 101 :=
+  open_close_tokens_against_trader 1000 99 101 (by decide) (by decide)
+/-- `close_delta_is_reverse` / `open_close_impact_le_one`: a delta of the hypothesis' shape (second delta 0,
+prices 1): opening 500 USD of longs against 1000 / 200; the reverse change from the resulting pools is
+`some D.rev` (first disjunct); both impacts exist, −21 001 050 000 and +21 000 000 000 (negative factor
+slightly larger), sum ≤ 1; the change stays on the same side. -/
+example : (match PoolDelta.tryNew 64 (1000 * 10 ^ 9) (200 * 10 ^ 9) (500 * 10 ^ 9) 0 1 1 with
+  | some D => some (PoolDelta.tryNew 64 D.nextL D.nextS (-(500 * 10 ^ 9)) 0 1 1 == some D.rev,
+      D.priceImpact 64 (10 ^ 9) ⟨2 * 10 ^ 9, 20000, 20001⟩, D.rev.priceImpact 64 (10 ^ 9) ⟨2 * 10 ^ 9, 20000, 20001⟩, D.isSameSide)
+  | none => none)
+    = some (true, some (-21001050000, .worsened), some (21000000000, .improved), true) := by decide +kernel
+/-- `cap_positive_le`: a positive impact of 15 USD on a 500 USD order is cut to the 0.5 % cap, 2.5 USD; a
+negative one passes unchanged. -/
+example : capPositiveImpact 64 (10 ^ 9) cM0 rtPerp ⟨100, 100⟩ (500 * 10 ^ 9) (15 * 10 ^ 9) = some (25 * 10 ^ 8) ∧
+    capPositiveImpact 64 (10 ^ 9) cM0 rtPerp ⟨100, 100⟩ (-(500 * 10 ^ 9)) (-(15 * 10 ^ 9)) = some (-(15 * 10 ^ 9)) := by
+  decide +kernel
+/-- `capped_roundtrip_impact_le_one` instantiated (`rtPerp`: positive cap 0.5 % ≤ negative cap 5 %; uncapped
+impacts +15 and −15 USD): applied impacts 2.5 − 15 ≤ 1. -/
+example : (25 * 10 ^ 8 : Int) + -(15 * 10 ^ 9) ≤ 1 :=
+  capped_roundtrip_impact_le_one (W := 64) (U := 10 ^ 9) (m0 := cM0) (m1 := cM0) (c := rtPerp) (index := ⟨100, 100⟩) (S := 500 * 10 ^ 9)
+    (x := 15 * 10 ^ 9) (y := -(15 * 10 ^ 9)) (i1 := -(15 * 10 ^ 9)) (diff := 0)
+    (by decide) (by decide +kernel) (by decide +kernel) (by decide +kernel) (by decide +kernel)
+/-- `close_pnl_le_open_impact` instantiated: long, size 1000, spread 99/101, impact +250 ⇒ impact amount
+`250 tdiv 101 = 2`, tokens `⌊1000/101⌋ + 2 = 11`; closing pnl `11·99 − 1000 = 89 ≤ 250`. -/
+example : ((11 : Nat) : Int) * (99 : Nat) - (1000 : Nat) ≤ 250 := by
+  simpa using close_pnl_le_open_impact true 1000 11 99 101 250 2 (by decide) (by decide) (by decide) (by decide)
+/-- `close_impact_is_reverse_on_market`: `increaseCore` succeeds on `cM0` and both `position_price_impact`
+calls return a value: +15 USD for `+size` before, −15 USD for `−size` after. -/
+example : positionPriceImpact 64 (10 ^ 9) cM0 false (500 * 10 ^ 9) true = some (15000000000, .improved) ∧
+    (match increaseCore 64 (10 ^ 9) cM0 rtPerp wPrices { isLong := false, collLong := false } (100 * 10 ^ 9) (500 * 10 ^ 9) with
+     | .ok (m1, p1, r1) => some (positionPriceImpact 64 (10 ^ 9) m1 false (-(500 * 10 ^ 9 : Int)) true, p1.sizeUsd, r1.impactValue)
+     | _ => none) = some (some (-15000000000, .worsened), 500000000000, 2500000000) := by decide +kernel
+/-- `open_close_no_profit` / `close_receipt` with a REAL spread (index and long token 99/101), a LONG with
+long-token collateral (`hsame`), fresh position, `rtPerp` (`hcap`): the increase and the immediate full
+close both succeed; `(open impact, close impact, pnl, everything returned)`: 672 217 220 ≤ 10⁹ + 1 deposited. -/
+example : (match increase 64 (10 ^ 9) cM0 rtPerp ⟨⟨99, 101⟩, ⟨99, 101⟩, ⟨1, 1⟩⟩ { isLong := true, collLong := true } (10 ^ 9) (500 * 10 ^ 9) with
+  | .ok (m1, p1, r1) => (match decrease 64 (10 ^ 9) m1 rtPerp ⟨⟨99, 101⟩, ⟨99, 101⟩, ⟨1, 1⟩⟩ p1 (500 * 10 ^ 9) 0 {} with
+     | .ok (_, _, r2) => some (r1.impactValue, r2.impactValue, r2.pnl, r2.output + r2.secondary + r2.userOut + r2.userSec)
+     | _ => none)
+  | _ => none) = some (-25000000000, 2500000000, -34900990196, 672217220) := by decide +kernel
+
 end Gmx.C10
